@@ -171,6 +171,24 @@ def native_C11(tier, seed):
                             fails.append({"id": f"C11-differs-{ci}-{k}-{route}", "obligation": "C11 resumed == uninterrupted", "what": f"resumed run differs from the uninterrupted one in {diff}{tag}", "input": inp})
                     finally:
                         _cleanup(d2)
+                # the same checkpoint dictionary used twice: a resumed run that is interrupted again before it writes a checkpoint must leave the
+                # dictionary as it was written, so that resuming from it once more still reproduces the uninterrupted run
+                if k is not None and ci < 3:
+                    cases += 1
+                    ckd = pickle.loads(last_bytes)
+                    p3, d3 = _fresh_path("c11rr")
+                    try:
+                        r_crash = run_with_file(o, p3, seed + ci, resume_from=ckd, fail_at=1, scale=scale)
+                        if r_crash["exc"] is not None:
+                            res2 = run_with_file(o, p3, seed + ci, resume_from=ckd, scale=scale)
+                            got2 = _summary(res2)
+                            diff2 = [key for key in want if want[key] != got2[key]]
+                            if diff2:
+                                fails.append({"id": f"C11-dict-reused-{ci}-{k}", "obligation": "restored history is the sampler's own copy",
+                                              "what": f"resuming twice from the same checkpoint dictionary (the first resumed run was interrupted before its first checkpoint) differs from the uninterrupted run in {diff2}",
+                                              "input": {"opts": o, "scale": scale, "seed": seed + ci, "fault_at_likelihood_call": k, "checkpoint_iteration": r["payloads"][-1][0]}})
+                    finally:
+                        _cleanup(d3)
         finally:
             _cleanup(d)
     return {"what": "real loop (stub kernel, numpy generator): interruption at likelihood-call indices, resume from the last checkpoint through bytes / dict / file path, bit comparison of schedule, ratios, final samples, evidence and history lengths with the uninterrupted run",
